@@ -23,6 +23,7 @@ structure St where
   gapBefore : Int := 0
   svcAhead : Bool := false
   syncedSince : Bool := false   -- a sync has run since the service was last tampered with
+  wasSynced : Bool := false     -- ... as of the pending sync's start
   dead : Bool := false
 
 def svcPosOf (obs : String) : Option (Nat × Spec.Chk) := (fieldOf (words obs) "pos") >>= parsePos
@@ -52,6 +53,10 @@ def check (st : St) (op obs : String) : St × String :=
       let st2 := { st1 with afterSync := 0 }
       (match pos, svcPosOf st.lastSvc with
        | some p, some s =>
+         -- a service that was behind on an untampered chain never makes the primary lose transactions
+         if !st.svcAhead && st.wasSynced && (match st.posBefore with | some b => decide (p.1 < b.1) | none => false) then
+           (st2, s!"FAIL the primary went back from TXID {(st.posBefore.map (·.1)).getD 0} to {p.1} although the service was only behind")
+         else
          if st.gapBefore ≤ 256 then
            if p ≠ s ∧ p.1 ≠ 0 then (st2, s!"FAIL after a sync the service is at {s.1} and the primary at {p.1} (positions differ)") else (st2, "ok")
          else if (p.1 : Int) - s.1 > st.gapBefore - 256 then
@@ -72,16 +77,18 @@ def check (st : St) (op obs : String) : St × String :=
     (match (fieldOf (words obs) "hwm") >>= String.toNat?, svcPosOf st.lastSvc with
      | some h, some s => if h > s.1 then (st, s!"FAIL high-water mark {h} exceeds what the service holds ({s.1})") else (st, "ok")
      | _, _ => (st, "ok"))
-  | ["backup-sync"] =>
+  | ["reopen-loop"] => ({ st with lastState := st.lastState }, if obs == "ok" then "ok" else s!"FAIL restart failed: {obs.take 40}")
+  | ["backup-sync"] | ["backup-wait"] =>
     let sv := svcPosOf st.lastSvc
     let gap : Int := match st.lastState, sv with | some p, some s => (p.1 : Int) - s.1 | _, _ => 0
     let ahead := match st.lastState, sv with
       | some p, some s => s.1 > p.1 ∨ (s.1 = p.1 ∧ s.1 ≠ 0 ∧ s.2 ≠ p.2)
       | _, _ => false
-    let st1 := { st with svcBefore := st.lastSvc, posBefore := st.lastState, afterSync := 1, gapBefore := gap, svcAhead := ahead, syncedSince := obs.startsWith "ok" }
+    let st1 := { st with svcBefore := st.lastSvc, posBefore := st.lastState, afterSync := 1, gapBefore := gap, svcAhead := ahead, wasSynced := st.syncedSince, syncedSince := obs.startsWith "ok" }
     if obs.startsWith "ok" then (st1, "ok") else (st1, s!"FAIL a sync against a healthy service failed: {obs.take 60}")
-  | "svc-drop-last" :: _ | "svc-clear" :: _ | "svc-put" :: _ | "svc-put-force" :: _ => ({ st with syncedSince := false }, "ok")
-  | _ => (st, "ok")
+  | "svc-drop-last" :: _ | "svc-clear" :: _ | "svc-put" :: _ | "svc-put-force" :: _ => ({ st with syncedSince := false, afterSync := 0 }, "ok")
+  | "ref" :: _ | ["ltx"] => (st, "ok")
+  | _ => ({ st with afterSync := 0 }, "ok")      -- anything else may change positions: a pending judgement lapses
 
 def step (st : St) (line : String) : St × String :=
   match line.splitOn "\t" with
